@@ -190,6 +190,7 @@ OUTER:
 			s.persistedCallbacks = nil
 			atomic.StoreUint64(&s.iStats.persistSnapshotSize, uint64(ourSnapshot.Size()))
 			atomic.StoreUint64(&s.iStats.persistEpoch, ourSnapshot.epoch)
+			verifPoint(s, "persist_pick", ourSnapshot.epoch, uint64(len(ourPersisted)))
 		}
 		s.rootLock.Unlock()
 
@@ -197,6 +198,7 @@ OUTER:
 			startTime := time.Now()
 
 			err := s.persistSnapshot(ourSnapshot, s.persisterOptions)
+			verifPoint(s, "persist_release_waiters", ourSnapshot.epoch, uint64(len(ourPersisted)))
 			for _, ch := range ourPersisted {
 				if err != nil {
 					ch <- err
@@ -738,6 +740,7 @@ func prepareBoltSnapshot(snapshot *IndexSnapshot, tx *util.BoltTxImpl, path stri
 				return nil, nil, fmt.Errorf("segment: %s persist err: %v", path, err)
 			}
 			newSegmentPaths[segmentSnapshot.id] = path
+			verifPoint(snapshot.parent, "segfile_written", segmentSnapshot.id)
 			err = snapshotSegmentBucket.Put(util.BoltPathKey, []byte(filename), nil)
 			if err != nil {
 				return nil, nil, err
@@ -806,6 +809,7 @@ func (s *Scorch) persistSnapshotDirect(snapshot *IndexSnapshot) (err error) {
 	if err != nil {
 		return err
 	}
+	verifPersistPrepared(s, snapshot)
 
 	// we need to swap in a new root only when we've persisted 1 or
 	// more segments -- whereby the new root would have 1-for-1
@@ -846,17 +850,21 @@ func (s *Scorch) persistSnapshotDirect(snapshot *IndexSnapshot) (err error) {
 
 		// blockingly wait until the persist has been applied
 		<-persist.applied
+		verifPoint(s, "persist_introduced", snapshot.epoch)
 	}
 
+	verifPoint(s, "persist_before_commit", snapshot.epoch)
 	err = tx.Commit()
 	if err != nil {
 		return err
 	}
+	verifPoint(s, "persist_committed", snapshot.epoch)
 
 	err = s.rootBolt.Sync()
 	if err != nil {
 		return err
 	}
+	verifPoint(s, "persist_synced", snapshot.epoch)
 
 	// allow files to become eligible for removal after commit, such
 	// as file segments from snapshots that came from the merger
@@ -1411,6 +1419,7 @@ func (s *Scorch) removeOldBoltSnapshots() (numRemoved int, err error) {
 	if len(epochsToRemove) == 0 {
 		return 0, nil
 	}
+	verifPoint(s, "purge_bolt_begin", epochsToRemove...)
 
 	tx, err := s.rootBolt.Begin(true)
 	if err != nil {
@@ -1419,6 +1428,7 @@ func (s *Scorch) removeOldBoltSnapshots() (numRemoved int, err error) {
 	defer func() {
 		if err == nil {
 			err = tx.Commit()
+			verifPoint(s, "purge_bolt_committed", epochsToRemove...)
 		} else {
 			_ = tx.Rollback()
 		}
@@ -1487,6 +1497,7 @@ func (s *Scorch) removeOldZapFiles() error {
 		fname := f.Name()
 		if filepath.Ext(fname) == ".zap" {
 			if _, exists := liveFileNames[fname]; !exists && !s.ineligibleForRemoval[fname] && (s.copyScheduled[fname] <= 0) {
+				verifPointName(s, "zap_remove", fname)
 				err := os.Remove(s.path + string(os.PathSeparator) + fname)
 				if err != nil {
 					log.Printf("got err removing file: %s, err: %v", fname, err)
